@@ -105,6 +105,37 @@ func VerifC09_DumpLoadGenCode() {
 	rt.Reach("raw-end")
 }
 
+// Values whose encoding is a single byte (a small integer in JSON, CBOR and
+// MsgPack): the smallest documents a codec produces, compressed or not.
+func VerifC09_DumpLoadScalar() {
+	format := rt.U8("format")
+	rt.Region("C09-dump-auto-unloadable", format == AUTO)
+	n := rt.U8("n")
+	rt.Assume(n <= 9)
+	compressed := rt.Bool("compressed")
+	var (
+		data []byte
+		err  error
+	)
+	if compressed {
+		data, err = DumpAndCompress(int(n), format, GZIP)
+	} else {
+		data, err = Dump(int(n), format)
+	}
+	if err != nil {
+		return
+	}
+	back := new(int)
+	got, err := Load(data, back)
+	rt.Assert(err == nil, "scalar/load-ok")
+	if err != nil {
+		return
+	}
+	rt.Assert(got == resolved(format), "scalar/format-reported")
+	rt.Assert(*back == int(n), "scalar/value")
+	rt.Reach("scalar-end")
+}
+
 // ---- O1b: DumpAndCompress -> Load for all 256 x 256 ids ----
 
 func VerifC09_DumpCompressLoad() {
